@@ -556,11 +556,26 @@ def _order_moves_idx(f, idx):
         return False
     name = t['ref']['n']
     if name == 'best':
-        # every definition of best is a loop counter
+        # every definition of best is a loop counter, or the position of std::max_element over a window [counter, n_moves) of the same array
         ok = True
         for n in f.all_nodes():
             if n['k'] == 'VarDecl' and n.get('id') == vid and kids(n):
-                ok = ok and strip_casts(kids(n)[0]).get('ref', {}).get('n') in ('i', 'j')
+                d0 = strip_casts(kids(n)[0])
+                if d0.get('ref', {}).get('n') in ('i', 'j'):
+                    continue
+                import re as _re
+                sdef = canon(f, d0, inline=False).replace(' ', '')
+                m = _re.fullmatch(r'\(max_element\(\((\w+)\+(\w+)\),\(\1\+n_moves\)\)-\1\)', sdef)
+                lo_ok = False
+                if m:
+                    # the lower end is a counter of an enclosing loop that stays below n_moves (window not empty)
+                    for a in f.ancestors(n):
+                        if a['k'] == 'ForStmt':
+                            cf = counting_for(f, a)
+                            if cf and any(x['k'] == 'VarDecl' and x.get('id') == cf[0] and x.get('name') == m.group(2) for x in f.all_nodes()) and \
+                                    'n_moves' in canon(f, cf[1], inline=False) and cf[2] == '<':
+                                lo_ok = True
+                ok = ok and bool(m) and lo_ok
         for w in local_writes(f, vid):
             v = written_value(f, w)
             ok = ok and v is not None and strip_casts(v).get('ref', {}).get('n') in ('i', 'j')
@@ -835,11 +850,12 @@ def _stack_depth(ctx, p, maxd):
     max_ply = K + (q0 if wr_before_cut else q0 - 1)
     # frames: root info = data()+1 (ply 0), data()[0] holds ply -1 ; index = ply + 1
     root_off = None
+    from rules.norm import Norm as _Norm
     for n, cfid, nm in it.calls():
         if nm == s.name:
-            a = strip_casts(kids(n)[5])
-            if a['k'] == 'BinaryOperator' and a.get('op') == '+':
-                root_off = const_of(strip_casts(kids(a)[1]))
+            base_, off_ = _Norm(it).lin(kids(n)[5])
+            if base_ is not None and (base_ == 'info' or '_stack_info.data()' in base_.replace('this.', '')):
+                root_off = off_ if root_off is None or root_off == off_ else -10 ** 6
     base_is_data = any(short(c.get('callee', {}).get('n', '')) == 'data' for c in it.all_nodes()
                        if c.get('callee') and '_stack_info' in canon(it, c, inline=False))
     st = p.field('engine::Search', '_stack_info')
